@@ -92,9 +92,15 @@ Fixpoint strs_eqb (a b : list str) : bool :=
   | _, _ => false
   end.
 
-Definition split_mismatches (cs : list (int * list str * list (list str) * list str)) : list N :=
-  flat_map (fun c => match c with (i, attrs, removed, got) =>
-     if strs_eqb (split_message attrs removed) got then [] else [n_of i] end) cs.
+Definition split_mismatches (cs : list (int * list str * list str * list (list str) * list str)) : list N :=
+  flat_map (fun c => match c with (i, attrs, listed, removed, got) =>
+     if strs_eqb (build_message listed attrs removed) got then [] else [n_of i] end) cs.
+
+(* (metadata / header / trailer attribute names, required payload / result attributes,
+   the names goa's finalised expression marks required) *)
+Definition reqmd_mismatches (cs : list (int * list str * list str * list str)) : list N :=
+  flat_map (fun c => match c with (i, md, required, got) =>
+     if strs_eqb (required_metadata md required) got then [] else [n_of i] end) cs.
 
 (* witness designs of the recorded findings: the model must predict the defect *)
 Inductive wobs := WPanic | WText (text : list int).
@@ -130,3 +136,15 @@ Definition runtime_mismatches
      let m := md_write caller written in
      if forallb (fun kv => strs_eqb (md_get m (fst kv)) (snd kv)) seen && stages_eqb (handle_trace dok eok) tr
      then [] else [n_of i] end) cs.
+
+(* two metadata maps hold the same values under every key of either *)
+Definition md_same (a b : mdata) : bool :=
+  forallb (fun kv => strs_eqb (md_get b (fst kv)) (md_get a (fst kv))) a &&
+  forallb (fun kv => strs_eqb (md_get a (fst kv)) (md_get b (fst kv))) b.
+
+(* history stream: (sent early by the endpoint, headers written, headers the client
+   decoded, trailers written, trailers the client decoded) for every delivered call *)
+Definition history_mismatches
+  (cs : list (int * mdata * list (str * list str) * mdata * list (str * list str) * mdata)) : list N :=
+  flat_map (fun c => match c with (i, pre, hw, hseen, tw, tseen) =>
+     if md_same (md_write pre hw) hseen && md_same (md_write [] tw) tseen then [] else [n_of i] end) cs.
